@@ -359,3 +359,19 @@ def c10(r):
     r.exhaustive = True
     r.extra['bounds'] = 'all strings of length <= 3 (quick) / 4 over {blank,a,A,7,comma,quote,z} x position lattice {MIN,-1,0,1,n-1,n,n+1,MAX,null}; numeric-syntax strings of length <= 3/4 over {blank,+,-,0,9,.,e,x,a}; conversion lattice'
     r.conform(scs, workers=16)
+
+
+@prop('C14')
+def c14(r):
+    r.assumptions += ['data races are observed by ThreadSanitizer on the replayed programs (clang -fsanitize=thread build of the working tree), not proved',
+                      'generated programs do not print values that depend on random()']
+    r.mc('BlocThreads', 'MC_C14.cfg', 'all interleavings of 3 clone threads over a shared program: no unsynchronised conflicting access, every thread observes the sequential result')
+    h = 3 if r.quick else 4
+    s1 = r.gen('Gen_C14', 'Gen_C14.cfg', env={'GEN_DEPTH': str(h), 'GEN_PART': 'S'}, timeout=3000)
+    r.conform(s1, workers=16)
+    s2 = r.gen('Gen_C14', 'Gen_C14.cfg', env={'GEN_DEPTH': str(h), 'GEN_PART': 'T'}, timeout=3000)
+    log = os.path.join(r.dir, 'tsan')
+    r.conform(s2, flavor='tsan', workers=4, tmo=120, batch=1,
+              env={'TSAN_OPTIONS': 'halt_on_error=0 exitcode=0 log_path=' + log, 'VDRIVE_TSAN_LOG': log})
+    r.exhaustive = True
+    r.extra['bounds'] = 'clone independence: all valid sequences of <= %d actions over 3 contexts (run 5 mutating programs in any context, purge/free the original, free a clone), dumps of every live context after each; threads: 3 programs x {2,4,8} threads x {1,25} repetitions under ThreadSanitizer' % h
